@@ -272,3 +272,34 @@ def task_stocks(tier, seed=0):
     for c in cfgs:
         obs.extend(o for o in run_sx(Stocks(*c), seed=seed) if "paths-explored" not in o.name)
     return obs
+
+
+class Objective(SxContract):
+    """gemini_objective(y_pred, kernel) == sum_k sigma(C_k x C_k)/|C_k| of the given labels (symbolic kernel)."""
+    fn = "gemclus.tree._utils.gemini_objective"
+    safety = False
+
+    def __init__(self, labels):
+        self.labels = list(labels)
+        self.label = f"gemini_objective[labels={self.labels}]"
+
+    def build(self, ctx):
+        self.mod, _ = decython.load(np_proxy=sx.NPProxy())
+        return {"K": sx.sym_symmetric(ctx, "k", len(self.labels), lo=-1.0, hi=2.0)}
+
+    def body(self, inp):
+        return self.mod.gemini_objective(np.array(self.labels, dtype=np.int64), inp["K"])
+
+    def ensures(self, inp, out):
+        yield "== sum over clusters of sigma(C x C)/|C|", prove.eq(out, spec.objective(self.labels, tolist(inp["K"])))
+
+
+def task_objective(tier, seed=0):
+    obs = []
+    import itertools
+    for n in (1, 2, 3, 4) if tier == "quick" else (1, 2, 3, 4, 5):
+        for labels in itertools.product(range(3), repeat=n):
+            if n >= 4 and labels[0] != 0:
+                continue
+            obs.extend(o for o in run_sx(Objective(labels), seed=seed) if "paths-explored" not in o.name and "no-exception" not in o.name)
+    return obs
